@@ -111,9 +111,10 @@ pub fn c02_c03_c11(ctx: &mut Ctx, which: &str) {
                 let case = format!("{}:Sim:g{}p{}:{}", which, gi, pi, g.describe());
                 if ctx.want(&case) {
                     let o = run(&g, Strategy::Sim, &Opts { threads: 1, target_states: Some(40), seed: seed() + gi as u64, ..Default::default() });
-                    let mut ok = true;
+                    let mut ok = !o.panicked;
                     let mut ok_ev = true;
                     let mut notes = String::new();
+                    if o.panicked { notes.push_str("[discoveries() panicked: a discovery was recorded with an empty path]"); }
                     for (i, (e, _)) in props.iter().enumerate() {
                         if let Some(p) = o.discoveries.get(NAMES[i]) {
                             match e {
